@@ -52,6 +52,8 @@ type Node struct {
 	Gamma  F64  `json:"gamma,omitempty"`
 	Offset F64  `json:"offset,omitempty"`
 	ByGam  bool `json:"bygamma,omitempty"`
+	// Lazy nodes are not constructed at start; an event (chmap) creates them.
+	Lazy bool `json:"lazy,omitempty"`
 }
 
 // Event is one fully resolved step of a plan. Field meaning depends on Ev and
